@@ -11,7 +11,7 @@ def main():
     if not os.path.isdir(outdir):
         os.makedirs(outdir)
     done = []
-    for name, src in OC.SOURCES:
+    for name, src in list(OC.SOURCES) + [tuple(x) for x in req.get("extra_sources", [])]:
         p = os.path.join(outdir, "src_" + name + ".py")
         if sys.version_info[0] >= 3:
             with open(p, "w", encoding="utf-8") as f:
